@@ -229,10 +229,10 @@ Proof.
     + replace (Nat.leb 3 n) with true by (symmetry; apply Nat.leb_le; lia).
       rewrite orb_true_r. split; [|discriminate].
       intros H. injection H as H. apply (f_equal (@length N)) in H.
-      rewrite app_length in H. cbn in H. lia.
-    + replace (Nat.leb 3 n) with false by (symmetry; apply Nat.leb_gt; lia).
-      rewrite orb_false_r. destruct b as [|x b].
-      * cbn. split; reflexivity.
+      cbn [length app] in H. lia.
+    + destruct b as [|x b].
+      * cbn [length] in *. replace (Nat.leb 3 n) with false by (symmetry; apply Nat.leb_gt; lia).
+        cbn. split; reflexivity.
       * cbn. split; discriminate.
   - destruct (Nat.leb_spec (3 + length b) n) as [H2|H2]; [lia|]. split; reflexivity.
 Qed.
